@@ -336,6 +336,7 @@ func (p *Path) execFrom(fr *Frame, start *ssa.BasicBlock) Value {
 			}
 		}
 		for _, ins := range block.Instrs[nphi:] {
+			p.curFn, p.curIns = fr.fn, ins
 			if debugExec {
 				fmt.Fprintf(os.Stderr, "%s%s: %s\n", strings.Repeat(" ", p.depth), fr.fn.Name(), ins)
 			}
